@@ -364,6 +364,23 @@ package meta
 //@   callee metabase.putIntAttribute
 //@   pureeffect
 //@   requires [integer_index_only_for_integer_values] valueIsInteger() || resultOf(a4, "strconv.FormatUint")
+// The numeric system attributes (creation epoch, payload length) are unsigned 64-bit header
+// fields: the integer indexed for them is that very number - non-negative, also beyond 2^63 -
+// the one whose decimal text goes to the plain indexes.
+//@ ghost field formattedNumber(x int) uint64
+//@ callrule c03_header_number_as_text in PutMetadataForObject
+//@   property C03
+//@   callee strconv.FormatUint
+//@   pureeffect
+//@   assigns formattedNumber
+//@   defines formattedNumber(0) == a0
+//@ callrule c03_header_number_indexed_as_itself in PutMetadataForObject
+//@   property C03
+//@   callee metabase.putIntAttribute
+//@   requires [integer_entry_is_the_unsigned_header_value] resultOf(a4, "strconv.FormatUint") ==> !a5.neg && leval(a5.mag, 0, 4) == wide(formattedNumber(0))
+//@ func PutMetadataForObject
+//@   property C03
+//@   opt wide=272
 //@ callrule c03_plain_entry_for_non_integers in PutMetadata*
 //@   property C03
 //@   optional
@@ -492,3 +509,50 @@ package meta
 //@ func deleteMetadata
 //@   property C01
 //@   ensures [missing_entry_still_loses_its_garbage_mark] !haveObject ==> garbageMarkLookedUp()
+
+// Reviving takes the object's garbage mark away, whichever way it had been removed (plain
+// mark or tombstone - a tombstoned object carries the mark as well): every successful revival
+// takes one off the garbage counter.
+//@ func inGarbage
+//@   property C02
+//@   assigns nothing
+//@   ensures [one_of_three_verdicts] result == statusAvailable || result == statusGCMarked || result == statusTombstoned
+//@ ghost pred garbageCounterTakenDown() bool
+//@ callrule c02_revive_gc_decrement in (*DB).ReviveObject$1
+//@   property C02
+//@   callee metabase.updateCounter
+//@   pureeffect
+//@   defines err == nil && a1 == gcCounter && a2 == -1 ==> garbageCounterTakenDown()
+//@ func (*DB).ReviveObject$1
+//@   property C02
+//@   valid ErrObjectWasNotRemoved != nil && ErrReviveFromContainerGarbage != nil
+//@   ensures [every_revival_takes_one_off_the_garbage_counter] err == nil ==> garbageCounterTakenDown()
+
+// The recount of the payload estimate uses the same test as the live updates: an object's
+// payload counts unless the object carries a garbage mark or a tombstone - the verdict of
+// the garbage index (inGarbage), not the object's status as seen by readers (a live lock
+// makes a marked object "available" to readers while its payload has been taken off).
+//@ ghost pred recountFoundNoMark() bool
+//@ callrule c02_recount_garbage_verdict in syncContainerCounters$1
+//@   property C02
+//@   callee metabase.inGarbage
+//@   pureeffect
+//@   defines result == statusAvailable ==> recountFoundNoMark()
+//@ func syncContainerCounters$1
+//@   property C02
+//@   ensures [payload_counted_only_for_objects_without_a_mark] deref(usersPayloadCounter) != old(deref(usersPayloadCounter)) ==> recountFoundNoMark()
+
+// ---- C09 (metadata rebuilt from the blobs): every blob that decodes joins the batch that is
+// written to the metabase - none is left out at a batch boundary (a tombstone left out of the
+// rebuilt metadata makes its target readable again).
+//@ callrule c09_resync_flushes_a_batch_that_holds_the_object in (*resyncHandler).handle
+//@   property C09
+//@   callee (*metabase.resyncHandler).flush
+//@   requires [object_joined_the_batch_before_the_flush] len(rh.batch) > 0 && rh.batch[len(rh.batch) - 1] == obj
+//@ callrule c09_resync_collaborators in (*resyncHandler).handle
+//@   property C09
+//@   callee (*object.Object).*, (object.Object).*, (id.Address).*, (*id.Address).*, strings.EqualFold, fmt.Errorf, (*zap.Logger).*, zap.String, dynamic:*
+//@   pureeffect
+//@ func (*resyncHandler).handle
+//@   property C09
+//@   ensures [object_joins_the_batch] err == nil && !resultOf(err, "dynamic:*") && !resultOf(err, "(*metabase.resyncHandler).flush") ==> len(rh.batch) == old(len(rh.batch)) + 1 && rh.batch[len(rh.batch) - 1] == obj
